@@ -28,7 +28,8 @@ RUNNER = os.path.join(core.VERIF, "harness", "runners", "history.py")
 
 def gen_history(rng, length):
     files = ["a", "b", "d/c"]
-    steps = [{"op": "create", "version": rng.choice([1, 2, 3]), "via": rng.choice(["lib", "asm", "cli"])}]
+    steps = [{"op": "create", "version": rng.choice([1, 2, 3]), "via": rng.choice(["lib", "asm", "cli"]),
+              "pl": rng.choice([16384, 32768])}]
     created = {steps[0]["version"]}
     for _ in range(length - 1):
         r = rng.random()
@@ -41,7 +42,8 @@ def gen_history(rng, length):
             steps.append({"op": "fs", "action": act, "file": f, "seed": rng.randrange(1 << 30)})
         elif r < 0.7:
             v = rng.choice([1, 2, 3])
-            steps.append({"op": "create", "version": v, "via": rng.choice(["lib", "asm", "cli"])})
+            steps.append({"op": "create", "version": v, "via": rng.choice(["lib", "asm", "cli"]),
+                          "pl": rng.choice([16384, 32768, 65536])})
             created.add(v)
         else:
             v = rng.choice(sorted(created))
@@ -80,7 +82,7 @@ def run_history(tmp, hid, steps, seed):
     rnd = random.Random(seed)
     sb = os.path.join(tmp, f"h{hid}", "sandbox")
     os.makedirs(os.path.join(sb, "payload", "d"))
-    for f, n in (("a", 20000), ("b", 16384), ("d/c", 7)):
+    for f, n in (("a", 90000), ("b", 16384), ("d/c", 7)):
         with open(os.path.join(sb, "payload", f), "wb") as fd:
             fd.write(rnd.randbytes(n))
     env = core.impl_env({"HOME": os.path.join(tmp, f"h{hid}", "home")})
@@ -157,6 +159,15 @@ def run(ctx, model_ok):
                          {"op": "recheck", "version": v, "via": "lib"}])
     if ctx.tier == "quick":
         hist = hist[::2]
+    # aimed: the same operation twice around a same-size rewrite; a create at another piece length after other work
+    for v, via in ((2, "asm"), (3, "asm"), (1, "lib"), (3, "lib")):
+        hist.append([{"op": "create", "version": v, "via": via, "pl": 16384}, {"op": "rebuild", "version": v, "via": "lib"},
+                     {"op": "fs", "action": "rewrite", "file": "a", "seed": 11}, {"op": "rebuild", "version": v, "via": "lib"},
+                     {"op": "recheck", "version": v, "via": "lib"}])
+        hist.append([{"op": "create", "version": v, "via": via, "pl": 16384}, {"op": "recheck", "version": v, "via": "lib"},
+                     {"op": "fs", "action": "grow", "file": "a", "seed": 5},
+                     {"op": "create", "version": v, "via": via, "pl": 32768}, {"op": "recheck", "version": v, "via": "cli"},
+                     {"op": "create", "version": v, "via": via, "pl": 65536}])
     while len(hist) < n:
         hist.append(gen_history(ctx.rng, ctx.rng.randrange(3, maxlen + 1)))
     with core.Scratch("vc09_") as tmp:
